@@ -788,7 +788,8 @@ impl<'a> GeneratorState<'a> {
             Expr::Integer(i) => Ok(ExprType::Immediate(!*i)),
             _ => { 
                 let left = self.generate_expr(expr, pos, false, false)?;
-                let right = ExprType::Immediate(0xff);
+                // All bits are complemented, in the high byte of a 16 bits value too
+                let right = ExprType::Immediate(-1);
                 self.generate_arithm(&left, &Operation::Xor(false), &right, pos, false)
             },
         }
